@@ -4,7 +4,7 @@ Values: ints are python ints (concrete) or z3 bit-vectors / Bools (i1); pointers
 pluggable domain (ConcreteDom = IEEE via numpy/libm, RealDom = exact reals, FPDom = z3 IEEE terms, UDom = opaque patterns).
 Memory: copy-on-write pages over the snapshot + a cell map for symbolic values.  Every access is checked against the
 allocation table (snapshot arena allocations + the executor's own heap)."""
-import struct, copy, math, time, sys, bisect, ctypes, re
+import os, struct, copy, math, time, sys, bisect, ctypes, re
 from fractions import Fraction
 import numpy as np
 import z3
@@ -19,7 +19,7 @@ LIBM = {}   # name -> (ctypes fn, nargs, bits)
 for _n, _k, _d in (('tanf', 1, 0), ('sinf', 1, 0), ('cosf', 1, 0), ('asinf', 1, 0), ('sqrtf', 1, 0), ('expf', 1, 0), ('logf', 1, 0), ('powf', 2, 0),
                    ('tan', 1, 1), ('sin', 1, 1), ('cos', 1, 1), ('asin', 1, 1), ('sqrt', 1, 1), ('exp', 1, 1), ('log', 1, 1), ('pow', 2, 1), ('cbrt', 1, 1), ('cbrtf', 1, 0),
                    ('floorf', 1, 0), ('ceilf', 1, 0), ('roundf', 1, 0), ('floor', 1, 1), ('ceil', 1, 1), ('round', 1, 1), ('fabsf', 1, 0), ('fabs', 1, 1),
-                   ('log2', 1, 1), ('log2f', 1, 0), ('atan2', 2, 1), ('fmod', 2, 1), ('fmodf', 2, 0), ('log10', 1, 1), ('exp2', 1, 1), ('atan', 1, 1), ('atanf', 1, 0), ('acos', 1, 1)):
+                   ('log2', 1, 1), ('log2f', 1, 0), ('atan2', 2, 1), ('fmod', 2, 1), ('fmodf', 2, 0), ('log10', 1, 1), ('exp2', 1, 1), ('atan', 1, 1), ('atanf', 1, 0), ('acos', 1, 1), ('remainder', 2, 1), ('remainderf', 2, 0)):
     LIBM[_n] = (_cf(_n, _k, bool(_d)), _k, 64 if _d else 32)
 
 MASK = lambda b: (1 << b) - 1
@@ -221,6 +221,7 @@ class Exec:
         self.ext_prefix = [('_ZN4vfps7Display9printText', ext_noop)]      # logging is not the subject
         self.max_paths = 1500
         self.track_uninit = False    # optional: flag scalar loads from never-written stack bytes (allocas; re-poisoned by llvm.lifetime.start)
+        self.garbage_heap = (getattr(dom, 'name', '') != 'concrete') and not os.environ.get('VERIF_NO_GARBAGE')    # optional: storage obtained from operator new / malloc during the run holds arbitrary bytes - a scalar load of never-written bytes yields a fresh symbol (garb_<addr>)
         self.check_gep = True        # inbounds address computations must stay inside the object they start in (only where the base lies in a known heap allocation)
         self.fork_guide = None       # optional: fork_guide(st, cond, true_block, false_block) -> None | True | False, asked before fork_filter
         self.round_toint = False     # symbolic round/ceil/floor/fp-to-int as fresh mathematical integers (no enumeration of integer parts)
@@ -291,6 +292,7 @@ class Exec:
             out += pg[o:o+k]; addr += k; n -= k
         return bytes(out)
     def write_bytes(self, st, addr, data):
+        if self.garbage_heap and addr >= EXEC_HEAP and 'garb' in st.extra: self._garb_clear(st, addr, len(data))
         i = 0
         while i < len(data):
             pg = self._page(st, addr + i, True)
@@ -312,6 +314,7 @@ class Exec:
         self.check_access(st, addr, n, 'store')
         if st.wlog is not None: st.wlog.append((addr, n))
         if self.track_uninit: self._mark_init(st, addr, n)
+        if self.garbage_heap and addr >= EXEC_HEAP: self._garb_clear(st, addr, n)
         for a in self._overlap(st, addr, n):
             sz, kind, v = st.sym.pop(a)
             if a < addr or a + sz > addr + n:
@@ -344,6 +347,9 @@ class Exec:
         if self.track_uninit and self._is_uninit(st, addr, n):
             fr_ = st.frames[-1] if st.frames else None
             st.extra.setdefault('uninit_reads', []).append((fr_.fn.name if fr_ else '?', addr, n))
+        if self.garbage_heap and addr >= EXEC_HEAP and 'garb' in st.extra:
+            g = self._garb_load(st, addr, n, ty)
+            if g is not None: return g
         ov = self._overlap(st, addr, n)
         if ov:
             if len(ov) == 1 and ov[0] == addr and st.sym[addr][0] == n:
@@ -400,6 +406,48 @@ class Exec:
     def _is_uninit(self, st, addr, n):
         a, mask = self._uninit_region(st, addr)
         return mask is not None and any(mask[addr - a: addr - a + n])
+    def _garb_region(self, st, addr):
+        g = st.extra.get('garb')
+        if not g: return None, None
+        import bisect
+        i = bisect.bisect_right(g['bases'], addr) - 1
+        if i < 0: return None, None
+        a = g['bases'][i]; mask = g['mask'][a]
+        return (a, mask) if addr < a + len(mask) else (None, None)
+    def _garb_clear(self, st, addr, n):
+        a, mask = self._garb_region(st, addr)
+        if mask is not None:
+            lo = addr - a; mask[lo:lo + n] = bytes(min(n, len(mask) - lo))
+    def _garb_load(self, st, addr, n, ty):
+        a, mask = self._garb_region(st, addr)
+        if mask is None: return None
+        lo = addr - a; m_ = mask[lo:lo + n]
+        if not any(m_): return None
+        if self._overlap(st, addr, n): mask[lo:lo + n] = bytes(len(m_)); return None      # a model placed a value there directly
+        st.extra.setdefault('garb_reads', []).append((st.frames[-1].fn.name if st.frames else '?', addr, n))
+        if not all(m_) or len(m_) < n:
+            mask[lo:lo + n] = bytes(len(m_)); return None      # partly written: the unwritten bytes read as zero (under-approximation, noted in garb_reads)
+        mask[lo:lo + n] = bytes(n)
+        if isinstance(ty, FloatTy):
+            if self.dom.name == 'concrete': return None
+            v = z3.Real('garb_%x' % addr) if self.dom.name != 'fp' else z3.FP('garb_%x' % addr, self.dom.sort(ty.bits))
+            st.sym[addr] = (n, 'f', v); return v
+        if isinstance(ty, IntTy) and n in (1, 2, 4, 8) and ty.bits == 8 * n:
+            v = z3.BitVec('garbi_%x' % addr, 8 * n); st.sym[addr] = (n, 'i', v); return v
+        return None
+    def _garb_copy(self, st, dst, src, n):
+        # copying never-written bytes: the destination is as arbitrary as the source where it is tracked storage itself; elsewhere the bytes arrive as zeros (noted)
+        sa, sm = self._garb_region(st, src) if src >= EXEC_HEAP else (None, None)
+        da, dm = self._garb_region(st, dst) if dst >= EXEC_HEAP else (None, None)
+        src_mask = bytes(sm[src - sa: src - sa + n]) if sm is not None else bytes(n)
+        src_mask = src_mask + bytes(n - len(src_mask))
+        if dm is not None:
+            lo = dst - da; k = min(n, len(dm) - lo); dm[lo:lo + k] = src_mask[:k]
+        elif any(src_mask): st.extra.setdefault('garb_reads', []).append(('memcpy-to-untracked', src, n))
+    def garbage_alloc(self, st, a, n):
+        import bisect
+        g = st.extra.setdefault('garb', {'bases': [], 'mask': {}})
+        bisect.insort(g['bases'], a); g['mask'][a] = bytearray(b'\1' * n)
     def malloc(self, st, n, zero=True):
         a = (st.heap + 31) & ~15; st.heap = a + max(n, 1) + 32; st.allocs[a] = n; st.aver += 1
         self.write_bytes(st, a, bytes(n))
@@ -1040,6 +1088,11 @@ class Exec:
         if self.dom.name != 'concrete' and base in ('floor', 'ceil', 'round') and not self.dom.is_conc(args[0]):
             if self.dom.name == 'fp' and base != 'floor': raise Unsupported('symbolic %s in the FP domain' % base)
             return self.round_sym(st, base, args[0])
+        if base == 'remainder' and self.dom.name not in ('concrete', 'fp') and not all(self.dom.is_conc(a) for a in args):
+            # IEEE remainder: x - k*y with k the integer nearest to x/y (ties, where the two candidates differ in parity only, are left to the solver)
+            x, y = self.dom.z(args[0]), self.dom.z(args[1]); k = self.fresh_int(st, 'rem'); r = x - z3.ToReal(k) * y; ay = z3.If(y >= 0, y, -y)
+            st.pc += [y != 0, 2 * r <= ay, 2 * r >= -ay]
+            return r
         return self.dom.fn(name, args, bits)
     def fresh_int(self, st, hint):
         k = st.extra['nint'] = st.extra.get('nint', 0) + 1
@@ -1174,6 +1227,7 @@ class Exec:
                 if x < src: raise Unsupported('memcpy misaligned symbolic cell')
         data = self.read_bytes(st, src, n)
         if self.track_uninit: self._mark_init(st, dst, n)
+        if self.garbage_heap: self._garb_copy(st, dst, src, n)
         for x in self._overlap(st, dst, n):
             c = st.sym[x]
             if x < dst or x + c[0] > dst + n: raise Unsupported('memcpy partially overwrites a symbolic cell')
@@ -1186,7 +1240,9 @@ def ext_new(ex, st, fr, args, ins):
     n = args[0]
     if not isinstance(n, int): raise Unsupported('symbolic allocation size')
     if n > (1 << 32): raise MemError('allocation of %d bytes (size computation wrapped?)' % n)
-    return ex.malloc(st, n)
+    a = ex.malloc(st, n)
+    if ex.garbage_heap: ex.garbage_alloc(st, a, n)
+    return a
 def ext_free(ex, st, fr, args, ins): return None
 def ext_modff(ex, st, fr, args, ins):
     x, ip = args
@@ -1237,6 +1293,7 @@ def ext_memset(ex, st, fr, args, ins):
     ex.check_access(st, dst, n, 'memset')
     for a in ex._overlap(st, dst, n): st.sym.pop(a)
     if ex.track_uninit: ex._mark_init(st, dst, n)
+    if ex.garbage_heap and dst >= EXEC_HEAP: ex._garb_clear(st, dst, n)
     ex.write_bytes(st, dst, bytes([v & 255]) * n); return dst
 def ext_atomic_guard(ex, st, fr, args, ins):
     # __cxa_guard_acquire: a function-local static that the (native) process has already initialised keeps its value - the guard byte in the snapshot says so
